@@ -2,6 +2,10 @@
 #define __VERIF_GSTDIO_SHIM_H__
 #include <glib.h>
 #include <stdio.h>
+#include <sys/stat.h>
+/* the real <glib/gstdio.h> includes <glib/gprintf.h>; girwriter.c, compiler.c and generate.c
+ * rely on that for g_fprintf()/g_printf() */
+#include <glib/gprintf.h>
 FILE *g_fopen (const gchar *filename, const gchar *mode);
 int g_unlink (const gchar *filename);
 #endif
